@@ -7,6 +7,7 @@ package conc
 import (
 	"encoding/binary"
 	"math/big"
+	"strings"
 
 	secp256k1 "github.com/bytemare/secp256k1"
 	"github.com/bytemare/secp256k1/internal/verif/ref"
@@ -18,8 +19,9 @@ type Shared struct {
 	M          []byte
 	D18, D20   []byte
 	DLong      []byte
-	E1, E2     *secp256k1.Element
+	E1, E2, E0 *secp256k1.Element // E0 is a shared identity (0:5:0)
 	S1, S2     *secp256k1.Scalar
+	S3, S4, S0 *secp256k1.Scalar // small shared scalars: 9, 2, 0
 	EB, EU, SB []byte
 	encBuf     []byte
 }
@@ -62,8 +64,10 @@ func NewSharedFill(mask byte) *Shared {
 	s.DLong = s.Buf[128 : 128+300]
 	s.E1 = rawElement(ptH, big.NewInt(3))
 	s.E2 = rawElement(pt5G, big.NewInt(1))
+	s.E0 = secp256k1.VerifSetRaw(secp256k1.VerifBlankElement(), [4]uint64{}, ref.Mont(big.NewInt(5), ref.P), [4]uint64{})
 	s.S1 = rawScalar(valA)
 	s.S2 = rawScalar(valB)
+	s.S3, s.S4, s.S0 = rawScalar(big.NewInt(9)), rawScalar(big.NewInt(2)), rawScalar(big.NewInt(0))
 	s.encBuf = make([]byte, 0, 33+65+32+8)
 	s.encBuf = append(s.encBuf, ref.Enc(ptH)...)
 	s.encBuf = append(s.encBuf, ref.EncUncompressed(pt5G)...)
@@ -91,7 +95,7 @@ func (s *Shared) SnapshotInto(dst []byte) []byte {
 		b = append(b, w8[:]...)
 	}
 
-	for _, e := range []*secp256k1.Element{s.E1, s.E2} {
+	for _, e := range []*secp256k1.Element{s.E1, s.E2, s.E0} {
 		x, y, z := secp256k1.VerifRaw(e)
 		for _, l := range [][4]uint64{x, y, z} {
 			for _, w := range l {
@@ -100,7 +104,7 @@ func (s *Shared) SnapshotInto(dst []byte) []byte {
 		}
 	}
 
-	for _, sc := range []*secp256k1.Scalar{s.S1, s.S2} {
+	for _, sc := range []*secp256k1.Scalar{s.S1, s.S2, s.S3, s.S4, s.S0} {
 		for _, w := range sc.S {
 			put(w)
 		}
@@ -114,6 +118,19 @@ func (s *Shared) SnapshotInto(dst []byte) []byte {
 type Op struct {
 	Name string
 	Run  func(sh *Shared) []byte
+}
+
+// IsValueClass reports whether the operation is one of the "special value class" operations (identity element,
+// small / zero scalars, short results). The scheduler exploration pairs those with each other and with a few core
+// operations instead of with the whole alphabet.
+func IsValueClass(name string) bool {
+	for _, m := range []string{"E0", "S0=", "S3=", "S4="} {
+		if strings.Contains(name, m) {
+			return true
+		}
+	}
+
+	return false
 }
 
 func own() *secp256k1.Element { return rawElement(ref.G(), big.NewInt(2)) }
@@ -182,6 +199,16 @@ var Ops = []Op{
 	{"Base().Encode()", func(sh *Shared) []byte { return secp256k1.Base().Encode() }},
 	{"NewElement().Add(E2)", func(sh *Shared) []byte { return secp256k1.NewElement().Add(sh.E2).Encode() }},
 	{"Order()", func(sh *Shared) []byte { return secp256k1.Order() }},
+	// special value classes of the shared arguments: identity element, small and zero scalars, short results
+	{"Element.Subtract(E0=identity)", func(sh *Shared) []byte { return own().Subtract(sh.E0).Encode() }},
+	{"Element.Add(E0=identity)", func(sh *Shared) []byte { return own().Add(sh.E0).Encode() }},
+	{"E0.Copy().Double().Encode()", func(sh *Shared) []byte { return sh.E0.Copy().Double().Encode() }},
+	{"Element.Multiply(S4=2)", func(sh *Shared) []byte { return own().Multiply(sh.S4).Encode() }},
+	{"Element.Multiply(S0=0)", func(sh *Shared) []byte { return own().Multiply(sh.S0).Encode() }},
+	{"Scalar(2).Pow(S3=9)", func(sh *Shared) []byte { return rawScalar(big.NewInt(2)).Pow(sh.S3).Encode() }},
+	{"Scalar(3).Pow(S4=2)", func(sh *Shared) []byte { return rawScalar(big.NewInt(3)).Pow(sh.S4).Encode() }},
+	{"Scalar(0).Pow(S3=9)", func(sh *Shared) []byte { return rawScalar(big.NewInt(0)).Pow(sh.S3).Encode() }},
+	{"Scalar.Multiply(S0=0)", func(sh *Shared) []byte { return rawScalar(big.NewInt(9)).Multiply(sh.S0).Encode() }},
 	// the caller owns every returned slice and may write into it: the write must stay private to this thread
 	{"Order()+overwrite-result", func(sh *Shared) []byte { return takeAndOverwrite(secp256k1.Order()) }},
 	{"E1.Encode()+overwrite-result", func(sh *Shared) []byte { return takeAndOverwrite(sh.E1.Encode()) }},
